@@ -154,7 +154,7 @@ CORPUS = [
         ["set", "r", ["expr", ["bin", "@", ["post", ["array", I(1)], "~"], ["fn", [["x", "int"]], "string", [ret(S("s"))]]]]],
         ["set", "a", ["expr", ["call", V("r")]]], ["set", "b", ["expr", ["call", V("r")]]],
         E(["bin", "+", ["tacc", V("b"), 1], S("x")])]),
-    ("sum-never-elem-type", ["C01"], [E(["post", ["post", ["array"], "~"], "$+"])]),
+    ("sum-never-elem-type", ["C01", "C11"], [E(["post", ["post", ["array"], "~"], "$+"])]),
     # S27: the reducer of `$+` / `$*` was chosen by the run-time type of the iterator alone; `[]~` (type
     # () -> (bool, !)) at static type () -> (bool, float) gave the int 0 at static type float
     ("sum-empty-iter-at-float", ["C01", "C02", "C11"], [
@@ -353,13 +353,98 @@ CORPUS = [
             ["fndecl", "g", [], "int", [ret(["at", V("a"), I(1)])]],
             ret(I(0))]],
         E(["call", V("f"), ["array", I(0)]])]),
+    # ---- round 4
+    # a loop that can only be left by a `break` inside a match arm / an initialiser still needs a return after it
+    ("loop-left-by-break-in-match-arm-needs-return", ["C02", "C12", "C01"], [
+        ["fndecl", "first_negative", [["it", ["fun", [], ["tup", "bool", "int"]]]], "int", [
+            ["stm", ["loop", ["block",
+                ["destruct", ["con", "value"], ["expr", ["call", V("it")]]],
+                ["stm", ["match", V("con"), ["aval", [B(False)], ["block", ["stm", "break"]]],
+                         ["aother", ["block", ["stm", ["if", ["bin", "<", V("value"), I(0)], ["return", ["expr", V("value")]], None]]]]]]]]]]],
+        E(["bin", "+", ["call", V("first_negative"), ["post", ["array", I(1), I(2), I(3)], "~"]], I(1)])]),
+    ("loop-left-by-break-in-initialiser-needs-return", ["C02", "C12", "C01"], [
+        ["fndecl", "g", [["n", "int"]], "int", [
+            ["stm", ["loop", ["block", ["set", "x", ["if", ["bin", ">", V("n"), I(0)], ["block", ["stm", "break"]], ["block", E(I(1))]]],
+                              ret(V("x"))]]]]],
+        E(["bin", "+", ["call", V("g"), I(1)], I(1)])]),
+    ("endless-loop-needs-no-return", ["C12", "C02"], [
+        ["fndecl", "g", [["n", "int"]], "int", [["stm", ["loop", ["block", ret(V("n"))]]]]],
+        E(["call", V("g"), I(4)])]),
+    # a top-level destructuring that rebinds a name it also reads (run-time old value, constant new value)
+    ("toplevel-destructuring-reads-rebound-name", ["C04", "C17", "C03", "C06"], [
+        ["set", "m", ["expr", ["mut", None, I(7)]]], ["set", "x", ["expr", ["pre", "deref", V("m")]]],
+        ["destruct", ["x", "y"], ["expr", ["tuple", I(1), V("x")]]], E(["tuple", V("x"), V("y")])]),
+    ("toplevel-destructuring-rebound-name-prunes-branch", ["C04", "C17", "C03"], [
+        ["set", "m", ["expr", ["mut", None, I(7)]]], ["set", "x", ["expr", ["pre", "deref", V("m")]]],
+        ["destruct", ["x", "y"], ["expr", ["tuple", I(0), V("x")]]],
+        ["stm", ["if", ["bin", "==", V("y"), I(0)], ["block", E(S("zero"))], ["block", E(S("seven"))]]]]),
+    ("toplevel-swap-by-destructuring", ["C04", "C17", "C06"], [
+        ["fndecl", "idf", [["v", "int"]], "int", [ret(V("v"))]],
+        ["set", "a", ["expr", ["call", V("idf"), I(1)]]], ["set", "b", ["expr", ["call", V("idf"), I(2)]]],
+        ["destruct", ["a", "b"], ["expr", ["tuple", V("b"), V("a")]]], E(["bin", "+", ["bin", "*", V("a"), I(10)], V("b")])]),
+    # every iteration of a loop body gets a fresh scope
+    ("loop-body-scope-is-per-iteration", ["C06", "C12"], [
+        ["fndecl", "idf", [["v", "int"]], "int", [ret(V("v"))]],
+        ["set", "x", ["expr", ["call", V("idf"), I(1)]]], ["set", "i", ["expr", ["mut", None, I(0)]]],
+        ["set", "seen", ["expr", ["mut", ["arr", "int"], ["array"]]]],
+        ["stm", ["loop", ["block", ["stm", ["if", ["bin", ">=", ["pre", "deref", V("i")], I(3)], ["block", ["stm", "break"]], None]],
+                          E(["bin", "+=", V("seen"), ["array", V("x")]]), ["set", "x", ["expr", ["bin", "*", V("x"), I(10)]]],
+                          E(["bin", "+=", V("i"), I(1)])]]],
+        E(["tuple", ["pre", "deref", V("seen")], V("x")])]),
+    ("while-body-closure-sees-outer-name-each-iteration", ["C06", "C12"], [
+        ["fndecl", "run", [["start", "int"]], ["arr", "int"], [
+            ["set", "out", ["expr", ["mut", ["arr", "int"], ["array"]]]], ["set", "i", ["expr", ["mut", None, I(0)]]],
+            ["stm", ["while", ["bin", "<", ["pre", "deref", V("i")], I(3)], ["block",
+                ["fndecl", "get", [], "int", [ret(V("start"))]],
+                E(["bin", "+=", V("out"), ["array", ["call", V("get")]]]),
+                ["set", "start", ["expr", ["bin", "+", ["call", V("get")], I(100)]]],
+                E(["bin", "+=", V("i"), I(1)])]]],
+            ret(["pre", "deref", V("out")])]],
+        E(["call", V("run"), I(7)])]),
+    # closures created twice by the same expression capture their own values, also when the free name sits in a nested scope
+    ("closure-factory-free-name-in-nested-scope", ["C06", "C04"], [
+        ["fndecl", "make", [["n", "int"], ["flag", "bool"]], ["fun", [], "int"], [
+            ret(["fn", [], "int", [["stm", ["if", V("flag"), ["block", ret(V("n"))], None]], ret(I(0))]])]],
+        ["set", "a", ["expr", ["call", V("make"), I(1), B(True)]]], ["set", "b", ["expr", ["call", V("make"), I(2), B(True)]]],
+        ["set", "c", ["expr", ["call", V("make"), I(3), B(False)]]],
+        E(["tuple", ["call", V("a")], ["call", V("b")], ["call", V("c")]])]),
+    # the arms of a match are tried top to bottom, the catch-all arm included
+    ("match-catch-all-arm-first", ["C12", "C19"], [
+        ["fndecl", "first", [["v", ["multi", "int", "string"]]], "string", [
+            ret_stm(["match", V("v"), ["aother", ["block", E(S("default"))]], ["aval", [I(5)], ["block", E(S("five"))]],
+                     ["atype", "x", "int", ["block", E(S("int"))]], ["atype", "s", "string", ["block", E(S("string"))]]])]],
+        ["fndecl", "middle", [["v", ["multi", "int", "string"]]], "string", [
+            ret_stm(["match", V("v"), ["aval", [I(5)], ["block", E(S("five"))]], ["aother", ["block", E(S("default"))]],
+                     ["atype", "x", "int", ["block", E(S("int"))]], ["atype", "s", "string", ["block", E(S("string"))]]])]],
+        E(["tuple", ["call", V("first"), I(5)], ["call", V("first"), I(7)], ["call", V("first"), S("a")],
+           ["call", V("middle"), I(5)], ["call", V("middle"), I(7)], ["call", V("middle"), S("a")]])]),
+    # a cell type is covered only by an arm of exactly its type (cells are invariant)
+    ("match-on-cell-needs-exact-cell-arm", ["C12", "C13", "C03", "C02"], [
+        ["fndecl", "f", [["m", ["mut", "int"]]], "int", [ret_stm(["match", V("m"), ["atype", "c", ["mut", ["multi", "int", "string"]], ["block", E(I(1))]]])]],
+        E(["call", V("f"), ["mut", None, I(5)]])]),
+    ("match-on-cell-or-string-needs-exact-cell-arm", ["C12", "C13", "C03", "C02"], [
+        ["fndecl", "f", [["m", ["multi", ["mut", "int"], "string"]]], "int", [
+            ret_stm(["match", V("m"), ["atype", "c", ["mut", ["multi", "int", "string"]], ["block", E(I(1))]], ["atype", "s", "string", ["block", E(I(2))]]])]],
+        E(["call", V("f"), ["mut", None, I(5)]])]),
+    # the value a compound assignment yields has the type of the cell's content
+    ("compound-assign-yield-has-content-type", ["C13", "C01", "C02"], [
+        ["set", "c", ["expr", ["mut", ["arr", ["multi", "int", "float"]], ["array", I(1)]]]],
+        ["set", "d", ["expr", ["mut", ["arr", "float"], ["array"]]]],
+        E(["bin", "=", V("d"), ["bin", "+=", V("c"), ["array", ["c", ["f", 4612811918334230528]]]]]),
+        E(["tuple", V("d"), ["pre", "deref", V("c")]])]),
+    ("assign-keeps-negative-zero", ["C13", "C08"], [
+        ["set", "c", ["expr", ["mut", None, ["c", ["f", 0]]]]],
+        ["set", "r", ["expr", ["bin", "=", V("c"), ["pre", "neg", ["c", ["f", 0]]]]]],
+        E(["tuple", ["bin", "/", ["c", ["f", 4607182418800017408]], V("r")], ["bin", "/", ["c", ["f", 4607182418800017408]], ["pre", "deref", V("c")]]])]),
+    ("sum-and-product-of-never-iterator", ["C11", "C01"], [
+        E(["tuple", ["post", ["post", ["array"], "~"], "$+"], ["post", ["post", ["array"], "~"], "$*"]])]),
     ("sum-never-missing-return", ["C01", "C02"], [
         ["fndecl", "f", [], "int", [["set", "x", ["expr", ["post", ["post", ["array"], "~"], "$+"]]]]],
         E(["bin", "+", ["call", V("f")], I(1)])]),
     ("union-end-marker-default", ["C05"], [
         ["set", "it", ["expr", ["post", ["array", I(1), S("a")], "~"]]],
         E(["call", V("it")]), E(["call", V("it")]), E(["call", V("it")])]),
-    ("typefilter-names-do-not-leak", ["C06"], [
+    ("typefilter-names-do-not-leak", ["C06", "C11"], [
         ["fndecl", "f", [["default", "int"], ["iterator", "string"]], ["tup", "int", "string"], [
             ["set", "floats", ["expr", ["post", ["tfilter", ["post", ["array", I(1), ["c", ["f", 4612811918334230528]], I(3)], "~"], "float"], "$]"]]],
             ret(["tuple", V("default"), V("iterator")])]],
